@@ -33,11 +33,18 @@ import pandas as pd
 from .. import gen, impl
 from ..core import Ctx, HarnessError, jsonable, lst, run_coq_cases, shrink, tup
 from . import c10
-from .c10 import (all_configs, build, cmp_items, coq_model, coq_path, coq_val, cv, fv, gen_dists, gen_graph_for,
+from .c10 import (all_configs, cmp_items, coq_model, coq_path, coq_val, cv, fv, gen_dists, gen_graph_for,
                   get_names, is_bad, leaves_of, observe, valid_value, _edge_names, _items, _opt)
 
 IMPORTS = "Base States Linalg Graph Transition Observation Dist Unilateral Models Params ParamsStatements Safe"
 TOL = 1e-9
+
+
+def build(case):
+    """c10.build without its declared-subset priming: here named_params is part of the case itself"""
+    return c10.build(case, named_subset=False)
+
+
 KNOWN_HPV = {"class": "HPVUnilateral", "call": "set_params"}
 KINDS = ["neg", "over", "nan", "inf", "-inf", "fam"]
 CHECKS = ["a", "b", "c", "d", "e", "f", "x"]
